@@ -402,7 +402,14 @@ struct Mon {
           nn = unit_index(align(lim, L), L) - unit_index(align(a, L), L) + rng.range(-2, 2);
           break;
         }
-        case 6: nn = (rng.chance(0.5) ? 1 : -1) * (i128)rng.range(0, 5) * 146097 * (L == 3 ? 1 : L == 0 ? 86400 : 1) + rng.range(-1, 1); break;
+        case 6: {
+          // whole 400-year cycles in the unit of this alignment, +- a little (with and without borrow from the lower field)
+          static const i128 kPerCycle[6] = {(i128)146097 * 86400, (i128)146097 * 1440, (i128)146097 * 24, 146097, 4800, 400};
+          nn = (rng.chance(0.5) ? 1 : -1) * ((i128)rng.range(0, 5) * kPerCycle[L] + rng.range(0, 50));
+          if (rng.chance(0.3)) a.H = 0, a.M = 0, a.S = 0;
+          if (rng.chance(0.3)) a.d = 1;
+          break;
+        }
         default: nn = rng.chance(0.5) ? 1 : -1; break;
       }
       if (!orc::fits64(nn)) {
@@ -619,6 +626,13 @@ int main(int argc, char** argv) {
             }
             m.c05_add<cctz::civil_minute>(base, -1, "cycle");
             m.c05_add<cctz::civil_hour>(base, 1, "cycle");
+            for (long q : {-(146097L * 24 + 1), -(146097L * 24), 146097L * 24 + 1, -(2 * 146097L * 24 + 25), -(146097L * 24 + 24 * (long)d + 1)}) {
+              Civ h0 = base;
+              h0.H = 0;
+              m.c05_add<cctz::civil_hour>(h0, q, "cycle");
+              m.c05_add<cctz::civil_hour>(base, q, "cycle");
+            }
+            m.c05_add<cctz::civil_minute>(base, -(146097L * 1440 + 1), "cycle");
             m.c05_add<cctz::civil_year>(base, -1, "cycle");
             Civ other{y + m.rng.range(-801, 801), (int)m.rng.range(1, 12), (int)m.rng.range(1, 28), 0, 0, 0};
             m.c05_diff<cctz::civil_day>(base, other, "cycle");
